@@ -434,8 +434,15 @@ def gen_lexer(m, tier):
 
 
 SPLIT_ENABLED_IN_QUICK = False
+# measured 2026-09-23: the three-run product does not finish within 900 s / runs out of memory for these states
+# (every one of them emits a tag or sits in a deep doctype chain); they keep their one-step harnesses only
+SPLIT_TOO_EXPENSIVE = {
+    "attribute_value_unquoted_state", "before_attribute_value_state", "end_tag_open_state", "rawtext_end_tag_name_state",
+    "rcdata_end_tag_name_state", "script_data_end_tag_name_state", "script_data_escaped_end_tag_name_state",
+    "self_closing_start_tag_state", "tag_name_state", "tag_open_state", "after_doctype_name_state", "doctype_state",
+}
 SPLIT_QUICK = {"data_state": "C02", "rcdata_state": "C02", "comment_state": "C02", "markup_declaration_open_state": "C02",
-               "bogus_comment_state": "C02,C09", "tag_name_state": "C02", "attribute_value_double_quoted_state": "C02",
+               "bogus_comment_state": "C02,C09", "cdata_section_bracket_state": "C02", "attribute_value_double_quoted_state": "C02",
                "script_data_escaped_state": "C02"}
 
 
@@ -455,7 +462,7 @@ def gen_split(m, tier):
     w("")
     sid = {n: i for i, n in enumerate(m.order)}
     for n in m.order:
-        if m.split_inline(n) or m.depth[n] > 3:
+        if m.split_inline(n) or m.depth[n] > 3 or n in SPLIT_TOO_EXPENSIVE:
             continue
         nb = max(4, m.seqlen[n] + 1, (m.dist[n] + 2) if m.dist[n] >= 0 else 0)
         variants = [("", "false")]
@@ -521,8 +528,8 @@ def gen_split(m, tier):
             w("                (Out::Switch(x), Out::Switch(y)) => assert!(x == y + c, \"[C02,C06] the hand-over position does not depend on the split\"),")
             w("                _ => assert!(false, \"[C02] the kind of outcome does not depend on the split\"),")
             w("            }")
-            w("            kani::cover!(c > 0 && matches!(rb2, Out::Ok));")
-            w("            kani::cover!(matches!(rb2, Out::Break(_)));")
+            if not m.states[n]["enter"]:
+                w("            kani::cover!(c > 0 || k > 0);")
             w("        }")
             w("        Out::Ok => {")
             w("            // the transition happened inside the prefix: the longer chunk must behave identically")
